@@ -13,10 +13,16 @@ extern "C" {
 #include "xraylib.h"
 #include "xraylib-deprecated.h"
 extern Crystal_Array Crystal_arr;
+xrl_error* xrl_error_new_literal(xrl_error_code code, const char* message);
+void Crystal_F_H_StructureFactor2(Crystal_Struct* crystal, double energy, int i_miller, int j_miller, int k_miller, double debye_factor, double rel_angle, xrlComplex* result, xrl_error** error);
+void Crystal_F_H_StructureFactor_Partial2(Crystal_Struct* crystal, double energy, int i_miller, int j_miller, int k_miller, double debye_factor, double rel_angle, int f0_flag, int f_prime_flag, int f_prime2_flag, xrlComplex* result, xrl_error** error);
 }
 
 namespace xs {
 
+#define XQ_DECLS
+#include "gen_queries.inc"
+#undef XQ_DECLS
 #define XQ_TABLE
 const QueryDef g_queries[] = {
 #include "gen_queries.inc"
@@ -24,7 +30,7 @@ const QueryDef g_queries[] = {
 #undef XQ_TABLE
 const int g_nqueries = sizeof g_queries / sizeof g_queries[0];
 
-struct QArgs { int i[4]; double d[6]; const char* s; };
+struct QArgs { int i[4]; double d[12]; const char* s; };
 struct QRet { double d0 = 0, d1 = 0; };
 
 static QRet call_query(const QueryDef& q, const QArgs& a, xrl_error** err) {
@@ -272,6 +278,14 @@ static void learn_array(Crystal_Array* a, ArrayModel& m, const std::vector<Cryst
 
 // ------------------------------------------------------------------ C16 monitors
 static void purity_monitors(Exec& ex, const Op& op) {
+  if (g_table_store_seen) {
+    std::string which;
+    if (tables_changed(&which))
+      violation("table-write", g_table_store_site, "%s stored into %s and the table %s now differs from its pristine contents", SH->cur_fn, g_table_store_where, which.c_str());
+    else
+      logf("NOTE store into %s left the tables unchanged", g_table_store_where);
+    g_table_store_seen = false;
+  }
   const char* loc = setlocale(LC_ALL, nullptr);
   if (!loc || g_locale_all != loc) {
     violation("global-state", SH->cur_fn, "process locale is '%s' after the call, was '%s'", loc ? loc : "(null)", g_locale_all.c_str());
@@ -315,6 +329,7 @@ static const char* op_fn_name(const Op& op) {
     case OK_A2S: return "AtomicNumberToSymbol";
     case OK_S2A: return "SymbolToAtomicNumber";
     case OK_ERR_COPY: return "xrl_error_copy";
+    case OK_ERR_NEW: return "xrl_error_new_literal";
     case OK_ERR_MATCH: return "xrl_error_matches";
     case OK_ERR_PROP: return "xrl_propagate_error";
     case OK_ERR_CLEAR: return "xrl_clear_error";
@@ -494,6 +509,15 @@ void Exec::run_op(const Op& op) {
       int z = SymbolToAtomicNumber(op.snull ? nullptr : op.s.c_str(), ep);
       g.i32(z);
       failed_sentinel = z == 0;
+      break;
+    }
+    case OK_ERR_NEW: {
+      xrl_error* c = xrl_error_new_literal((xrl_error_code)op.i[0], op.s.c_str());
+      failed_sentinel = !c;
+      if (c) {
+        if (!op_fault_fired()) { g.i32(c->code); g.str(c->message); }
+        nh.type = HT_ERROR; nh.p = c;
+      }
       break;
     }
     case OK_ERR_COPY: {
@@ -716,12 +740,18 @@ void Exec::run_op(const Op& op) {
     }
     case OK_CR_MATH: {
       Crystal_Struct* cp = nullptr;
+      Crystal_Struct* fetched = nullptr;
       OwnCrystal* oc = nullptr;
       if (op.h[0] >= 0) {
         Handle* h = find(op.h[0]);
         if (!h || h->type != HT_CRYSTAL || !h->p) { executed = false; break; }
         cp = (Crystal_Struct*)h->p;
         if (h->shared) SH->probes[PR_SHARED_CRYSTAL_2TASKS]++;
+      } else if (!op.s.empty()) {
+        // self-contained form: fetch a shipped crystal by name, use it, release it
+        fetched = Crystal_GetCrystal(op.s.c_str(), nullptr, nullptr);
+        if (!fetched) { executed = false; break; }
+        cp = fetched;
       } else if (!op.i[3]) {
         oc = new OwnCrystal(expand_crystal(op.cs));
         cp = &oc->cs;
@@ -732,10 +762,13 @@ void Exec::run_op(const Op& op) {
       else if (op.fn == "Q_scattering_amplitude") { double v = Q_scattering_amplitude(cp, E, hh, kk, ll, op.d[2], ep); g.dbl(v); failed_sentinel = v == 0; }
       else if (op.fn == "Crystal_F_H_StructureFactor") { xrlComplex z = Crystal_F_H_StructureFactor(cp, E, hh, kk, ll, op.d[1], op.d[2], ep); g.dbl(z.re); g.dbl(z.im); failed_sentinel = z.re == 0 && z.im == 0; }
       else if (op.fn == "Crystal_F_H_StructureFactor_Partial") { xrlComplex z = Crystal_F_H_StructureFactor_Partial(cp, E, hh, kk, ll, op.d[1], op.d[2], (int)op.d[3], (int)op.d[4], (int)op.d[5], ep); g.dbl(z.re); g.dbl(z.im); failed_sentinel = z.re == 0 && z.im == 0; }
+      else if (op.fn == "Crystal_F_H_StructureFactor2") { xrlComplex z = {0, 0}; Crystal_F_H_StructureFactor2(cp, E, hh, kk, ll, op.d[1], op.d[2], &z, ep); g.dbl(z.re); g.dbl(z.im); failed_sentinel = z.re == 0 && z.im == 0; }
+      else if (op.fn == "Crystal_F_H_StructureFactor_Partial2") { xrlComplex z = {0, 0}; Crystal_F_H_StructureFactor_Partial2(cp, E, hh, kk, ll, op.d[1], op.d[2], (int)op.d[3], (int)op.d[4], (int)op.d[5], &z, ep); g.dbl(z.re); g.dbl(z.im); failed_sentinel = z.re == 0 && z.im == 0; }
       else if (op.fn == "Crystal_UnitCellVolume") { double v = Crystal_UnitCellVolume(cp, ep); g.dbl(v); failed_sentinel = v == 0; }
       else if (op.fn == "Crystal_dSpacing") { double v = Crystal_dSpacing(cp, hh, kk, ll, ep); g.dbl(v); failed_sentinel = v == 0; }
       else executed = false;
       delete oc;
+      if (fetched) Crystal_Free(fetched);
       break;
     }
     case OK_ATOMFAC: {
